@@ -37,9 +37,9 @@ CLAIMS = {
     'C11': ('proof', 'Function level: every real function under contract (all units, ~70 functions incl. analysis, resolution, references, completion filter, CLI counts, import closure, cycle detection, line/column arithmetic) is verified panic-free for ALL inputs without idealising machine arithmetic: index bounds, usize/u32 overflow and underflow, unwrap on Some only; the byte-slicing string utilities are checked by Kani harnesses on the real file (bounded by string length; labelled bounded in the evidence, not counted as proved for all inputs). Four genuine panics found this way were repaired (F-11a-d).',
             'process liveness, handler bodies in providers/, scanner.rs and rayon isolation are not covered; string functions only up to the stated byte bound', '§5-C11'),
     'C12': ('proof', 'Termination: every loop and recursion of every function under contract (all units) carries a decreases measure that Verus discharges — the conftest walk (path length), all for-loops over vectors / hash enumerations. Lock discipline: the mutators are verified in &mut-receiver form with write operations of the DashMap shim taking &mut self, so Rust\'s borrow checker (run by Verus) rejects a write while a guard of the same map is alive and any self-call while a write guard is alive; a lexical lint covers the remaining pattern (another map touched inside a get_mut guard). Read-under-read nesting is argued in DESIGN, not proved.',
-            'no thread model; compute_fixture_cycles, get_imported_fixtures recursion, providers/ and scanner.rs are not under contract', '§5-C12'),
-    'C14': ('proof', 'Closure part: get_imported_fixtures / compute_imported_fixtures / is_fixture_imported_in_file (mutually recursive through the visited set) are proved to terminate on every import graph incl. cycles and self imports (measure: readable files not yet visited), to return only names of the import closure of the file (star imports and pytest_plugins entries transitively, explicit imports by name) and, for a top-level call under an exact memo, exactly that closure (DFS completeness); memo discipline proved (only top-level results are stored, keyed by content hash + version). Module resolution, import extraction from the AST and venv/plugin discovery are abstract or not covered.',
-            'trusted: parser / module resolution / import extraction abstract, finite universe of readable files, HashSet shim', '§5-C14'),
+            'no thread model; providers/ and scanner.rs are not under contract', '§5-C12'),
+    'C14': ('proof', 'Closure part: get_imported_fixtures / compute_imported_fixtures / is_fixture_imported_in_file (mutually recursive through the visited set) are proved to terminate on every import graph incl. cycles and self imports (measure: readable files not yet visited), to return only names of the import closure of the file (star imports and pytest_plugins entries transitively, explicit imports by name) and, for a top-level call under an exact memo, exactly that closure (DFS completeness); memo discipline proved (only top-level results are stored, keyed by content hash + version). Extraction part (unit imports_extract): extract_fixture_imports / extract_pytest_plugins / is_standard_library_module are proved equal to spec functions over the real AST (top-level import / from-import statements incl. star and relative forms, stdlib filter on the first component, the last non-annotated pytest_plugins assignment with string / list / tuple forms). Module resolution on the file system and venv/plugin discovery are not covered; the composition of the two units is not mechanised.',
+            'trusted: parser, module resolution on the file system (abstract), string-operation specs of the extraction unit, finite universe of readable files, HashSet shim', '§5-C14'),
     'C15': ('proof', 'Line/column arithmetic is proved exactly: build_line_index == the ascending newline positions (+1), get_line_from_offset / get_char_position_from_offset return the unique (line, column) with line_start + column == offset, for every offset (no panic); lemmas: monotone, single-line tokens give start <= end with the token length, round trip; the column is the BYTE count since the line start — equal to the UTF-16 column only for ASCII prefixes: known finding F-15a with a proved counterexample.',
             'trusted: memchr_iter / binary_search assumed specs; handler-built Range literals and visitor span arithmetic not covered', '§5-C15'),
     'C10': ('proof', 'Sequential clauses only: the contract of analyze_file_internal gives, for both orders of {scan analyses F from disk, editor analyses F from the buffer}, the resulting entries of F; lemma restore: one further analyze_file(F, t) makes F\'s entries exactly those of t; lemma fresh-keeps-old: analyze_file_fresh on a non-empty index keeps the old entries — known finding F-10 (open then scan yields both).',
